@@ -85,6 +85,22 @@ def parse_runs(text):
     return runs
 
 
+def registry_growth(text):
+    """G lines of one harness process (sizes of bmnumbers.AllTypes / AllMatchers / procbuilder.Allopcodes,
+    printed only while no simulation runs): -> [(case id after which they differ, first, now)]"""
+    first, res = None, []
+    for l in text.splitlines():
+        if l.startswith("G "):
+            d = kvs(l.split()[1:])
+            sizes = {k: d[k] for k in ("types", "matchers", "opcodes") if k in d}
+            if first is None:
+                first = sizes
+            elif sizes != first:
+                res.append((d.get("after"), first, sizes))
+                first = sizes
+    return res
+
+
 def parse_oracle(text):
     cfg, x, traces = {}, {}, {}
     for l in text.splitlines():
@@ -129,12 +145,17 @@ def run_alone(hbin, spec):
     rs = parse_runs(so)
     if rc != 0 or not rs:
         return {"hdr": {"err": "harness rc=%s %s" % (rc, se[-300:])}, "trace": [], "line": "alone " + spec}
+    rs[0]["growth"] = registry_growth(so)
     return rs[0]
 
 
 def run_batch(hbin, casefile, gomaxprocs, sched_seed, timeout=900):
     rc, so, se = vlib.run([hbin, "batch", casefile], timeout=timeout, env=henv(gomaxprocs, sched_seed))
+    GROWTH.extend(("batch gomaxprocs=%s seed=%s" % (gomaxprocs, sched_seed), g) for g in registry_growth(so))
     return rc, parse_runs(so), se
+
+
+GROWTH = []   # (which process, (case id, sizes before, sizes after)) collected by run_batch
 
 
 def corpus_cases():
@@ -268,7 +289,10 @@ def run(rep):
     cfg = orc[0]
     globals_types = {g.split(".")[0] for g in cfg.get("globals", "").split(",") if g}
 
+    del GROWTH[:]
     refs = {cid: run_alone(hbin, s) for cid, s in specs.items()}
+    for cid, r in refs.items():
+        GROWTH.extend(("alone (fresh process)", g) for g in r.get("growth", []))
     batches = []
     for gmp, ss in configs(rep.seed, thorough):
         rc, runs, se = run_batch(hbin, casefile, gmp, ss)
@@ -285,7 +309,7 @@ def run(rep):
     if thorough:
         racefile = casefile
     else:
-        sub = [s_ for s_ in speclist if " delays=1 " in s_] + speclist[:len(corpus_cases())]
+        sub = [s_ for s_ in speclist if " delays=1 " in s_ or " sps=" in s_] + speclist[:len(corpus_cases())]
         racefile = os.path.join(d, "race-cases.txt")
         open(racefile, "w").write("".join("C %s\n" % s_ for s_ in sub))
     race_specs = [l[2:].strip() for l in open(racefile) if l.startswith("C ")]
@@ -348,6 +372,19 @@ def run(rep):
         rep.known("%s: pipeline phase of %s lives in the process-wide opcode object; %d differing runs, %d race reports%s" % (
             KF, ",".join(sorted(globals_types)), len(known), len(race_known),
             (" e.g. case [%s] run [%s] tick %s: %s vs %s" % (ex["case"], ex["run"], ex["tick"], ex["ref"], ex["got"])) if ex else ""))
+    stats["registry_growth_events"] = len(GROWTH)
+    if GROWTH and not real:
+        # simulations changed process-wide tables (number types / matchers / opcodes) although every type
+        # and opcode they use was registered before the first simulation started
+        where, (cid, before, after) = sorted(GROWTH, key=lambda g: (g[0] != "alone (fresh process)", len(specs.get(g[1][0], ""))))[0]
+        rep.violation({"property": PROP, "kind": "global-state-grew",
+                       "case": specs.get(cid, "?"), "process": where, "sizes_before": before, "sizes_after": after,
+                       "what": "running the simulation(s) of this case changed the process-wide registries "
+                               "(bmnumbers.AllTypes / AllMatchers / procbuilder.Allopcodes): state outside any VM "
+                               "written by a simulation (the GlobalsFree hypothesis of sim_isolation fails)",
+                       "events_total": len(GROWTH), "tree_configuration": cfg,
+                       "replay": "python3 tools/check.py C09 --replay <this file>"})
+        race_real = []   # the races on the same tables are the same defect
     if real:
         # smallest case first; try to reproduce with the case alone in a batch (seq + conc copies of itself)
         real.sort(key=lambda x: (len(x["case"]), x["tick"]))
@@ -406,6 +443,15 @@ def run(rep):
 def replay(rep, path):
     hbin = vlib.go_build("c09")
     obj = json.load(open(path))
+    if obj.get("kind") == "global-state-grew":
+        r = run_alone(hbin, obj["case"])
+        rep.coverage.update({"evaluations": 1, "distinct_nontrivial": 2, "rule": "replay of " + path,
+                             "samples": [obj["case"]]})
+        if r.get("growth"):
+            cid, before, after = r["growth"][0]
+            rep.violation({"property": PROP, "kind": "global-state-grew", "case": obj["case"],
+                           "process": "alone (fresh process)", "sizes_before": before, "sizes_after": after})
+        return
     if obj.get("kind") == "data-race":
         rbin = vlib.go_build("c09", race=True)
         d = vlib.scratch_dir("c09" + vlib._REPO_TAG)
